@@ -576,6 +576,134 @@ theorem calendar_ok_only_if (h : (verifyIn H Gen.policy_calendar s x w).isOK) : 
 
 end calendar
 
+/-! ## what is reported otherwise: three representative cases -/
+
+theorem reports_of_outcome (ρ' : Nat → Outcome) (rs : List Rule) (o : Outcome) (h : (evalList ρ' rs).outcome = o) :
+    reports (Policy.verify ρ' [some rs]) o := by
+  subst h
+  unfold reports
+  exact ⟨fun h0 => verify_single_outcome _ _ h0, fun h0 => verify_single_error _ _ h0⟩
+
+theorem internal_part_ok (H : HashFn) (s : Sig) (x : VCtx) (w : World) (hc : Consistent H s x) :
+    (evalRule (ρA H s x w) (.and internalList)).isOk := by
+  rw [evalRule_and]
+  have := C02.internal_same H s x (ρA H s x w)
+  rw [ρx_ρA] at this
+  rw [this]
+  exact (C02.internal_isOk_iff H s x).mpr hc
+
+theorem bOutA (H : HashFn) (s : Sig) (x : VCtx) (w : World) (id : Nat) : (evalRule (ρA H s x w) (.basic id)).outcome = ρA H s x w id :=
+  basic_outcome _ _
+
+theorem okB_isOk (H : HashFn) (s : Sig) (x : VCtx) (w : World) (id : Nat) (o : Outcome) (h : ρA H s x w id = o) (ho : o = okOut) :
+    (evalRule (ρA H s x w) (.basic id)).isOk := by
+  rw [bOkA, h, ho]; exact okB_okOut
+
+/-- **Contradicting user publication.** The signature's publication record has the user's publication time but another
+hash: FAIL PUB-04 (for an internally consistent signature; whatever the extender would say). -/
+theorem userpub_other_hash_PUB04 (H : HashFn) (s : Sig) (x : VCtx) (w : World) (hc : Consistent H s x) (u p : PubData)
+    (hu : w.userPub = some u) (hp : s.pub = some p) (ht : p.time = u.time) (hh : p.imprint ≠ u.imprint) :
+    reports (verifyIn H Gen.policy_userpub s x w) (failOut (PUB 4)) := by
+  unfold verifyIn
+  rw [userpub_tree]
+  apply reports_of_outcome
+  have h57 : (evalRule (ρA H s x w) (.basic 57)).isOk :=
+    okB_isOk H s x w 57 _ rfl (by show ruleA H s x w "UserProvidedPublicationExistence" = okOut; simp [ruleA, hu])
+  rw [evalList_cons_and_outcome _ _ _ _ rfl (internal_part_ok H s x w hc), evalList_cons_and_outcome _ _ _ _ rfl h57, evalList_single]
+  unfold userX
+  rw [evalRule_and]
+  -- the first alternative (a publication record exists) decides with FAIL
+  have hA : (evalRule (ρA H s x w) (.or [.basic 52, .or [.basic 67, .basic 63, .basic 64], .or [.basic 65, and7u]])).outcome = failOut (PUB 4) := by
+    rw [evalRule_or]
+    have h52 : (evalRule (ρA H s x w) (.basic 52)).isOk := by
+      rw [bOkA]; show okB (rule H s x "SignaturePublicationRecordExistence")
+      rw [r_pubExist, hp]; simp
+    rw [evalList_cons_and_outcome _ _ _ _ rfl h52]
+    have hO1 : (evalRule (ρA H s x w) (.or [.basic 67, .basic 63, .basic 64])).outcome = failOut (PUB 4) := by
+      rw [evalRule_or, evalList_and_at _ _ 1 (by decide) (by simp [Rule.isOr])]
+      · show (evalRule (ρA H s x w) (.basic 63)).outcome = _
+        rw [bOutA]; show ruleA H s x w "UserProvidedPublicationHashVerification" = _
+        simp [ruleA, hp, hu, okIf, hh]
+      · intro i hi
+        match i, hi with
+        | 0, _ =>
+          show (evalRule (ρA H s x w) (.basic 67)).isOk
+          exact okB_isOk H s x w 67 _ rfl (by show ruleA H s x w "UserProvidedPublicationTimeVerification" = okOut; simp [ruleA, hp, hu, okIf, ht])
+      · show ¬ (evalRule (ρA H s x w) (.basic 63)).isOk
+        rw [bOkA]; show ¬ okB (ruleA H s x w "UserProvidedPublicationHashVerification")
+        have : ruleA H s x w "UserProvidedPublicationHashVerification" = failOut (PUB 4) := by simp [ruleA, hp, hu, okIf, hh]
+        rw [this]; exact not_okB_fail _
+    rw [evalList_cons_or_outcome_decides _ _ _ _ rfl (by rw [isNa_of_outcome _ _ hO1]; simp [failOut]), hO1]
+  rw [evalList_cons_or_outcome_decides _ _ _ _ rfl (by rw [isNa_of_outcome _ _ hA]; simp [failOut]), hA]
+
+/-- **Forbidden extension.** No publication record in the signature, a later user publication, extending not allowed:
+inconclusive (NA, GEN-02) — never OK, never FAIL. -/
+theorem userpub_extending_forbidden_NA (H : HashFn) (s : Sig) (x : VCtx) (w : World) (hc : Consistent H s x) (u : PubData) (t : Nat)
+    (hu : w.userPub = some u) (hp : s.pub = none) (hst : startTime s = some t) (hlt : t < u.time) (hext : w.extendingAllowed = false) :
+    reports (verifyIn H Gen.policy_userpub s x w) naGen := by
+  unfold verifyIn
+  rw [userpub_tree]
+  apply reports_of_outcome
+  have h57 : (evalRule (ρA H s x w) (.basic 57)).isOk :=
+    okB_isOk H s x w 57 _ rfl (by show ruleA H s x w "UserProvidedPublicationExistence" = okOut; simp [ruleA, hu])
+  rw [evalList_cons_and_outcome _ _ _ _ rfl (internal_part_ok H s x w hc), evalList_cons_and_outcome _ _ _ _ rfl h57, evalList_single]
+  unfold userX
+  rw [evalRule_and]
+  have hA : (evalRule (ρA H s x w) (.or [.basic 52, .or [.basic 67, .basic 63, .basic 64], .or [.basic 65, and7u]])).outcome = naNone := by
+    rw [evalRule_or, evalList_head_bad _ _ _ rfl]
+    · rw [bOutA]; show rule H s x "SignaturePublicationRecordExistence" = naNone
+      simp [rule, hp]
+    · rw [bOkA]; show ¬ okB (rule H s x "SignaturePublicationRecordExistence")
+      rw [r_pubExist, hp]; simp
+  rw [evalList_cons_or_outcome_na _ _ _ _ rfl (by rw [isNa_of_outcome _ _ hA]; simp [naNone]), evalList_single, evalRule_or]
+  have h53 : (evalRule (ρA H s x w) (.basic 53)).isOk :=
+    okB_isOk H s x w 53 _ rfl (by show ruleA H s x w "SignaturePublicationRecordMissing" = okOut; simp [ruleA, hp])
+  rw [evalList_cons_and_outcome _ _ _ _ rfl h53, evalList_single]
+  unfold and7u
+  rw [evalRule_and, evalList_and_at _ _ 1 (by decide) (by simp [Rule.isOr])]
+  · show (evalRule (ρA H s x w) (.basic 61)).outcome = _
+    rw [bOutA]; show ruleA H s x w "UserProvidedPublicationExtendingPermittedVerification" = _
+    simp [ruleA, okIf, hext]
+  · intro i hi
+    match i, hi with
+    | 0, _ =>
+      show (evalRule (ρA H s x w) (.basic 56)).isOk
+      exact okB_isOk H s x w 56 _ rfl (by show ruleA H s x w "UserProvidedPublicationCreationTimeVerification" = okOut; simp [ruleA, hst, hu, okIf, hlt])
+  · show ¬ (evalRule (ρA H s x w) (.basic 61)).isOk
+    rw [bOkA]; show ¬ okB (ruleA H s x w "UserProvidedPublicationExtendingPermittedVerification")
+    have : ruleA H s x w "UserProvidedPublicationExtendingPermittedVerification" = naGen := by simp [ruleA, okIf, hext]
+    rw [this]; exact not_okB_naGen
+
+/-- **Certificate not valid at the aggregation time**: FAIL KEY-03, although everything else about the key fits. -/
+theorem key_certificate_window_KEY03 (H : HashFn) (s : Sig) (x : VCtx) (w : World) (hc : Consistent H s x) (c : CalChain) (a : PubData)
+    (cid st sv data : Bytes) (pf : PubFile) (cr : CertRec)
+    (hcal : s.cal = some c) (hauth : s.auth = some a) (hdep : calDeprecated c = false) (hsig : w.authSig = some (cid, st, sv, data))
+    (hpf : w.pubfile = .ok pf) (hcr : certById pf.certs cid = some cr)
+    (hwin : c.aggrTime.getD c.pubTime < (w.certWindow cr.cert).1 ∨ (w.certWindow cr.cert).2 < c.aggrTime.getD c.pubTime) :
+    reports (verifyIn H Gen.policy_key s x w) (failOut (KEY 3)) := by
+  unfold verifyIn
+  rw [key_tree]
+  apply reports_of_outcome
+  unfold keyRules
+  rw [evalList_cons_and_outcome _ _ _ _ rfl (internal_part_ok H s x w hc)]
+  rw [evalList_and_at _ _ 4 (by decide) (by simp [Rule.isOr])]
+  · show (evalRule (ρA H s x w) (.basic 24)).outcome = _
+    rw [bOutA]; show ruleA H s x w "CertificateValidity" = _
+    simp only [ruleA, hsig, hpf, hcal, hcr, okIf]
+    rcases hwin with h | h <;> simp [h]
+  · intro i hi
+    match i, hi with
+    | 0, _ => exact okB_isOk H s x w 21 _ rfl (by show ruleA H s x w "CalendarHashChainPresenceVerification" = okOut; simp [ruleA, hcal, okIf])
+    | 1, _ => exact okB_isOk H s x w 19 _ rfl (by show ruleA H s x w "CalendarHashChainHashAlgorithmDeprecatedAtPubTime" = okOut; simp [ruleA, hcal, okIf, hdep])
+    | 2, _ => exact okB_isOk H s x w 13 _ rfl (by show ruleA H s x w "CalendarAuthenticationRecordPresenceVerification" = okOut; simp [ruleA, hauth, okIf])
+    | 3, _ => exact okB_isOk H s x w 23 _ rfl (by show ruleA H s x w "CertificateExistence" = okOut; simp [ruleA, hsig, hpf, hcr, okIf])
+  · show ¬ (evalRule (ρA H s x w) (.basic 24)).isOk
+    rw [bOkA]; show ¬ okB (ruleA H s x w "CertificateValidity")
+    have : ruleA H s x w "CertificateValidity" = failOut (KEY 3) := by
+      simp only [ruleA, hsig, hpf, hcal, hcr, okIf]
+      rcases hwin with h | h <;> simp [h]
+    rw [this]; exact not_okB_fail _
+
 /-! ## general -/
 
 theorem general_tree : Gen.policy_general = some [.and internalList, .or [.and internalList, .basic 57, userX], .basic 46,
